@@ -90,6 +90,8 @@ structure St where
   outs : List Out := []
   submitted : List Nat := []               -- ghost: every element any producer will yield, in submission order
   delivered : List Nat := []               -- ghost: elements of successful calls
+  subTimes : List Nat := []                -- ghost: the instants of all submissions so far
+  lastSub : Nat := 0                       -- ghost: the instant of the latest submission
   retLog : List (Nat × Nat) := []          -- ghost: for every `wait()` that returned, (its id, its `before`)
   tie : Bool := false
   daemonEnded : Bool := false              -- the background task has terminated (after a shutdown)
@@ -222,7 +224,7 @@ def fuelDefault : Nat := 100000
 /-- Let the daemon run its zero-time steps, then fire timed events up to `t` (strictly before
 `t` when an input at `t` follows), earliest first. -/
 def advance : Nat → Nat → Bool → St → St
-  | 0, _, _, s => s
+  | 0, _, _, s => settle fuelDefault s
   | fuel + 1, t, strict, s =>
     let s := settle fuelDefault s
     match nextTimed s with
@@ -293,7 +295,7 @@ def applyIn (s : St) (i : In) : St :=
   match i with
   | .submit _ p =>
     let s := { s with event := false, unfinished := s.unfinished + 1,
-                      submitted := s.submitted ++ pitems p }
+                      submitted := s.submitted ++ pitems p, subTimes := s.subTimes ++ [s.now], lastSub := s.now }
     let s :=
       if s.pc = Pc.idle then { s with queue := s.queue ++ [p] }
       else match s.getting with
@@ -311,7 +313,8 @@ def applyIn (s : St) (i : In) : St :=
   | .fclear _ => { s with event := false }
   | .fput _ p =>
     -- as `submit`, but the flag was cleared earlier, by the other thread (it may have been set again since)
-    let s := { s with unfinished := s.unfinished + 1, submitted := s.submitted ++ pitems p }
+    let s := { s with unfinished := s.unfinished + 1, submitted := s.submitted ++ pitems p,
+                      subTimes := s.subTimes ++ [s.now], lastSub := s.now }
     if s.pc = Pc.idle then { s with queue := s.queue ++ [p] }
     else match s.getting with
       | some g =>
